@@ -668,6 +668,17 @@ LEVELS.update({
 })
 
 
+LEVELS.update({
+    "C20": ("other", "Proof core, structure-bounded (number of subsystems K <= 4, kraus_op K <= 3; all dimensions, thresholds and "
+            "index values symbolic; ent_cross_matrix / projector / purify / the logneg_subsys renumbering loop for all sizes): "
+            "24 functions of calc.py and the lazy partial-trace operators hand their callees the same physical subsystems, in "
+            "the order the definition needs, on every shortcut route; outcome labels, rank decisions and Pauli enumerations are "
+            "decided (fdx) on the real functions; the numerical values themselves (entropies, negativity, fidelity, discord "
+            "minimisation, bounds, invariances) are run-time contracts against plain linear algebra on a bounded domain.",
+            _T_E1 + "; finite-domain exhaustive obligations (fdx)"),
+})
+
+
 def level_of(pid):
     return LEVELS.get(pid)
 
